@@ -80,6 +80,11 @@ using std::this_thread::yield;
 //--------------------------------------------------------------------------------------------------
 
 static inline void atomic_fence_seq_cst() {
+#if ONETBB_VERIF
+    // verification build: keep the full fence visible to the instrumented atomic runtime
+    std::atomic_thread_fence(std::memory_order_seq_cst);
+    return;
+#endif
 #if (__TBB_x86_64 || __TBB_x86_32) && defined(__GNUC__) && __GNUC__ < 11
     unsigned char dummy = 0u;
     __asm__ __volatile__ ("lock; notb %0" : "+m" (dummy) :: "memory");
